@@ -22,13 +22,13 @@ def generate(rng, cfg: Dict) -> Dict:
     population, classes = [], {}
     for serial in range(n):
         humans = [k for k, v in classes.items() if v == "Human"]
-        cls = c.weighted([("Org", 5), ("Human", 4), ("Boss", 2.5 if humans else 0), ("Envoy", 1.5)])
-        population.append(["Boss", serial, c.pick(humans)] if cls == "Boss" else [cls, serial])
+        cls = c.weighted([("Org", 5), ("Human", 4), ("Boss", 2.5 if humans else 0), ("Dean", 1.5 if humans else 0), ("Envoy", 1.5)])
+        population.append([cls, serial, c.pick(humans)] if cls in ("Boss", "Dean") else [cls, serial])
         classes[serial] = cls
     cands = [(s, f, t) for s, cs in classes.items() for (dc, f, rc) in RELATABLE if dc == cs for t, ct in classes.items() if ct == rc]
     # krrood itself puts role objects into Org.members (the inverse of HeadOf); asserting such a fact directly is
     # therefore part of the fact space: Member(org, boss) - its inverse lives on the boss's role taker
-    cands += [(s, "members", t) for s, cs in classes.items() if cs == "Org" for t, ct in classes.items() if ct in ("Boss", "Envoy")]
+    cands += [(s, "members", t) for s, cs in classes.items() if cs == "Org" for t, ct in classes.items() if ct in ("Boss", "Envoy", "Dean")]
     facts: List[list] = []
     focus = c.weighted([("any", 3), ("transitive", 3), ("roles", 2)])
     for _ in range(c.int(1, 9)):
@@ -36,7 +36,7 @@ def generate(rng, cfg: Dict) -> Dict:
         if focus == "transitive":
             pool = [x for x in cands if x[1] in ("sub_org_of", "partners")] or cands
         elif focus == "roles":
-            pool = [x for x in cands if x[1] in ("head_of", "works_for", "members", "chairs")] or cands
+            pool = [x for x in cands if x[1] in ("head_of", "works_for", "members", "chairs", "dean_of", "employed_by")] or cands
         if not pool:
             break
         s, f, t = c.pick(pool)
